@@ -13,5 +13,15 @@ def _oracle(S, b, trace):
     return out
 
 
-K = Kit("C14", _oracle)
+def _tweak(rng, c):
+    """a component that lists a task without the task pointing back (BaseComponent(targeted_task_list=[...])),
+    possibly a task that belongs to another component: its state follows the tasks IT lists"""
+    if c.get("comps") and c["tasks"] and rng.random() < 0.2:
+        ci = rng.randrange(len(c["comps"]))
+        cand = [i for i, t in enumerate(c["tasks"]) if t.get("comp") != ci]
+        if cand:
+            c["comps"][ci]["extra_tasks"] = rng.sample(cand, rng.choice([1, 1, min(2, len(cand))]))
+
+
+K = Kit("C14", _oracle, tweak=_tweak)
 eval_case, run, replay = K.eval_case, K.run, K.replay
